@@ -239,6 +239,49 @@ def run_pmap(case):
     return out
 
 
+def run_pmapns(case):
+    """the real _ParamProjection (constructor, _set_ref_val, _rate_not_same, update_param_rules) with same=False on
+    given coordinate dictionaries, motif probabilities and rule values (fractions)"""
+    from fractions import Fraction
+
+    from cogent3.evolve import likelihood_function as LF
+
+    if "models" in case:
+        from cogent3 import get_model
+
+        simple_m, rich_m = (get_model(n) for n in case["models"])
+        rich = rich_m.get_param_matrix_coords(include_ref_cell=True)
+        simple = simple_m.get_param_matrix_coords(include_ref_cell=True)
+        rich = {k: {(int(i), int(j)) for i, j in v} for k, v in rich.items()}
+        simple = {k: {(int(i), int(j)) for i, j in v} for k, v in simple.items()}
+    else:
+        rich, simple = _coords(case["rich"]), _coords(case["simple"])
+
+    class Fake:
+        def __init__(self, coords):
+            self.coords = coords
+
+        def get_param_matrix_coords(self, include_ref_cell=False):
+            return self.coords
+
+    out = dict(rich_iter=[[k, [list(c) for c in v]] for k, v in rich.items()],
+               simple_iter=[[k, [list(c) for c in v]] for k, v in simple.items()])
+    pis = [float(Fraction(n, d)) for n, d in case["pi"]]
+    names = [k for k in simple if k != "ref_cell"]
+    vals = case["vals"]
+    rules = [dict(par_name=n, init=float(Fraction(*vals[i % len(vals)]))) for i, n in enumerate(names)]
+    rules.append(dict(par_name="length", edge="a", init=7.0))
+    out["rule_names"] = names
+    try:
+        pp = LF._ParamProjection(Fake(simple), Fake(rich), pis, same=False)
+        new = pp.update_param_rules(rules)
+    except Exception as e:  # noqa: BLE001
+        out["proj"] = {"exc": exc_code(e)}
+        return out
+    out["proj"] = sorted([r["par_name"], float(r["init"])] for r in new if r["par_name"] != "length")
+    return out
+
+
 def run_scoped(case):
     """update_scoped_rules on synthetic rule lists; values are ints"""
     from cogent3.evolve import likelihood_function as LF
@@ -472,6 +515,8 @@ def run_case(case):
         return run_pmap(case)
     if k == "scoped":
         return run_scoped(case)
+    if k == "pmapns":
+        return run_pmapns(case)
     if k == "nested":
         return run_nested(case)
     if k == "lfopt":
